@@ -1220,7 +1220,55 @@ def generate(rng: random.Random, tier: str):
     for c in out:
         if writer_outside_model(c["writer"]):
             c["oracle_only"] = True
+    warm_up(out)
     return out
+
+
+def sg_key(c):
+    """Cases with the same key instantiate the same compiled spatial_graph classes."""
+    w = c["writer"]
+    if w["lib"] != "sg" and c["reader"] != "sg":
+        return None
+    if w["lib"] == "sg":
+        sig = (w["node_dtype"], tuple(sorted((k, a["dtype"], a["inner"]) for k, a in w["nattrs"].items())),
+               tuple(sorted((k, a["dtype"], a["inner"]) for k, a in w["eattrs"].items())))
+    elif w["lib"] == "mem":
+        sig = (w["nids"]["dtype"], tuple(sorted((k, p["values"].get("dtype"), tuple(p["values"].get("shape", [0])[1:])) for k, p in w["nprops"].items())),
+               tuple(sorted((k, p["values"].get("dtype"), tuple(p["values"].get("shape", [0])[1:])) for k, p in w["eprops"].items())),
+               tuple(a["name"] for a in (w["md"].get("axes") or [])))
+    else:
+        attrs = [a for _, a in w["nodes"]] if w["lib"] == "nx" else [a for a in w["slots"] if a is not None]
+        first = attrs[0] if attrs else {}
+        efirst = w["edges"][0][1] if w["edges"] else {}
+        sig = (tuple(sorted((k, type(v).__name__, len(v) if isinstance(v, list) else 0) for k, v in first.items())),
+               tuple(sorted((k, type(v).__name__, len(v) if isinstance(v, list) else 0) for k, v in efirst.items())), tuple(w["axes"] or []))
+    return repr((w["lib"] == "sg", c["reader"] == "sg", w.get("directed", w.get("md", {}).get("directed") if w["lib"] == "mem" else None), c["pos"], sig))
+
+
+def _warm(c):
+    try:
+        run_impl(c)
+    except Exception:
+        pass
+    return 0
+
+
+def warm_up(cases):
+    """spatial_graph compiles one extension module per (dtypes, attribute names, directedness) on first use (~20 s each, cached on
+    disk by witty): compile every distinct one once, in parallel, before the case pool starts."""
+    import multiprocessing as mp
+
+    from harness.common import NCPU
+
+    reps = {}
+    for c in cases:
+        k = sg_key(c)
+        if k is not None and k not in reps:
+            reps[k] = c
+    if not reps:
+        return
+    with mp.get_context("fork").Pool(min(NCPU, len(reps))) as pool:
+        pool.map(_warm, list(reps.values()), chunksize=1)
 
 
 def malformed(rng, quick):
